@@ -91,6 +91,28 @@ def pathological():
     for n in (99, 100, 101, 1000):
         yield 'many-errors', n, H + ''.join('ENTITY a%d; x : undefined_type_%d; END_ENTITY;\n' % (k, k) for k in range(n)) + F
         yield 'many-lexical-errors', n, H + E + ('@ ' * n) + '\n' + F
+    # every built-in function and procedure called with 0..3 arguments (the resolver special-cases some of them)
+    for fn in ('ABS', 'ACOS', 'ASIN', 'ATAN', 'BLENGTH', 'COS', 'EXISTS', 'EXP', 'FORMAT', 'HIBOUND', 'HIINDEX', 'LENGTH', 'LOBOUND', 'LOG', 'LOG2', 'LOG10', 'LOINDEX', 'NVL', 'ODD',
+               'ROLESOF', 'SIN', 'SIZEOF', 'SQRT', 'TAN', 'TYPEOF', 'USEDIN', 'VALUE', 'VALUE_IN', 'VALUE_UNIQUE'):
+        for n in range(4):
+            yield 'builtin-argcount', n, H + 'ENTITY a; x : OPTIONAL REAL; l : LIST OF REAL;\n DERIVE d : REAL := ' + fn + ((' (' + ', '.join(['x', 'l', '1.0'][:n]) + ')') if n else '') + ';\nEND_ENTITY;\n' + F + '-- ' + fn + '\n'
+    for pr in ('INSERT', 'REMOVE'):
+        for n in range(4):
+            yield 'builtin-argcount', n, H + 'PROCEDURE q (VAR l : LIST OF REAL; x : REAL);\n  ' + pr + ((' (' + ', '.join(['l', 'x', '0'][:n]) + ')') if n else '') + ';\nEND_PROCEDURE;\n' + F + '-- ' + pr + '\n'
+    # CASE labels of every expression form
+    for k, lab in enumerate(('1', '-1', '+1', '1 + 1', '(1)', "'a'", 'TRUE', 'NOT TRUE', '1.5', '-1.5', '[1]', 'p', '-p', 'ff (1)', 'SELF', '?', 'p.q', '1, -2', 'p * 2 - 1')):
+        yield 'case-label', k, H + 'FUNCTION ff (p : INTEGER) : REAL;\n  CASE p OF\n    ' + lab + ' : RETURN (1.0);\n    OTHERWISE : RETURN (0.0);\n  END_CASE;\nEND_FUNCTION;\n' + F
+    # identifiers ending in an underscore (legal), in every declaration kind
+    yield 'trailing-underscore', 0, ('SCHEMA under_;\nTYPE kind_ = ENUMERATION OF (big_, small_); END_TYPE;\nTYPE num_ = INTEGER; END_TYPE;\nTYPE pick_ = SELECT (part_, num_); END_TYPE;\n'
+                                     'ENTITY part_; x_ : INTEGER; k_ : kind_; p_ : OPTIONAL pick_;\n DERIVE d_ : INTEGER := x_ + 1;\n WHERE w_ : x_ > 0;\nEND_ENTITY;\n'
+                                     'ENTITY sub_ SUBTYPE OF (part_); END_ENTITY;\nFUNCTION f_ (a_ : INTEGER) : INTEGER; RETURN (a_); END_FUNCTION;\nEND_SCHEMA;\n')
+    yield 'trailing-underscore', 1, 'SCHEMA a_;\nENTITY b__; c___ : INTEGER; END_ENTITY;\nEND_SCHEMA;\n'
+    # an index applied to a value of every kind of type (only aggregates, strings and binaries can be indexed)
+    for k, ty in enumerate(('INTEGER', 'REAL', 'STRING', 'BINARY', 'BOOLEAN', 'LIST OF INTEGER', 'ARRAY [1:3] OF REAL', 'a', 'en', 'sel_ab', 'sel_la', 'sel_ll', 'sel_nest', 'GENERIC_ENTITY'[:0] or 'lst')):
+        yield 'index-of', k, (H + 'ENTITY a; v : INTEGER; END_ENTITY;\nENTITY b; w : INTEGER; END_ENTITY;\nTYPE en = ENUMERATION OF (e1, e2); END_TYPE;\nTYPE lst = LIST OF INTEGER; END_TYPE;\n'
+                              'TYPE sel_ab = SELECT (a, b); END_TYPE;\nTYPE sel_la = SELECT (lst, a); END_TYPE;\nTYPE sel_ll = SELECT (lst, lst2); END_TYPE;\nTYPE lst2 = LIST OF REAL; END_TYPE;\n'
+                              'TYPE sel_nest = SELECT (sel_ab, en); END_TYPE;\n'
+                              'ENTITY c; x : ' + ty + ';\n DERIVE d : LOGICAL := x[1] :<>: x[2];\n WHERE w1 : x[1] = x[2]; w2 : SIZEOF (x[1:2]) > 0;\nEND_ENTITY;\n' + F)
     yield 'no-final-newline', 0, H + E + 'END_SCHEMA;'
     yield 'crlf', 0, (H + E + F).replace('\n', '\r\n')
     yield 'empty-file', 0, ''
@@ -140,6 +162,12 @@ def main():
     for name, text, ok in gfam.interface_family(args.tier):
         for t in TOOLS:
             cases.append({'tool': t, 'cls': 'interface' if ok else 'interface-invalid', 'detail': name, 'text': text})
+    for name, text, ok, planted in gfam.visibility_family():
+        for t in TOOLS:
+            cases.append({'tool': t, 'cls': 'visibility', 'detail': name, 'text': text})
+    for name, text, ok in gfam.interface_paths():
+        for t in TOOLS:
+            cases.append({'tool': t, 'cls': 'interface-paths', 'detail': name, 'text': text})
     for c in gfam.diagnostic_catalogue():
         if 'extra_files' not in c:
             for t in TOOLS:
